@@ -20,6 +20,7 @@ RULE = (
     "after EVERY step with independent geometry (shoelace / triple product / exact trilinear volume / Pappus-with-"
     "chords for revolve); inserted mid-points must be the centroids of their parents. Non-trivial: >= 3 applied "
     "steps including a topology-changing one."
+    " families 'revolve-side' (kind x axis x side of the axis enumerated), 'merge-tolerance' (decimals -1, 0, 1, 2, 4 on noisy lattices through Mesh / sweep / MeshContainer) and 'containers' (members are meshes of their own: npoints, re-concatenation)."
 )
 ASSUMPTIONS = [
     "hexahedra passed to triangulate are planar-faced (grid under affine maps): a 5/6-tet split of a warped trilinear cell has a different volume",
